@@ -1,0 +1,12 @@
+//go:build verif
+// +build verif
+
+package gf2p16
+
+// VerifSetSSSE3 forces the SSSE3/non-SSSE3 dispatch flag and returns the
+// previous value.
+func VerifSetSSSE3(v bool) bool {
+	old := hasSSSE3
+	hasSSSE3 = v
+	return old
+}
